@@ -9,6 +9,8 @@
 #include <frg/qs.hpp>
 #include <frg/array.hpp>
 #include <frg/spinlock.hpp>
+#include <frg/manual_box.hpp>
+#include <frg/eternal.hpp>
 
 // ---- tuple (C17)
 using T1 = frg::tuple<int, wit::Elem>;
@@ -38,3 +40,10 @@ static_assert(!std::is_copy_constructible_v<frg::lock_guard<wit::Mutex>> && !std
 static_assert(std::is_move_constructible_v<frg::unique_lock<wit::Mutex>> && std::is_move_constructible_v<frg::shared_lock<wit::Mutex>>, "guards: unique_lock/shared_lock are movable");
 static_assert(!std::is_copy_constructible_v<frg::ticket_spinlock> && !std::is_copy_constructible_v<frg::simple_spinlock>, "spinlocks are not copyable");
 
+
+// ---- manual_box / eternal (C17): objects of static storage duration that are initialised on first use
+// A manual_box at namespace scope must be CONSTANT-initialised: initialize() may be called from another global's
+// constructor, before a dynamic initialiser of the box would run -- which would then reset the engaged flag of a box that
+// already holds an object. constinit makes the compiler decide it (every byte of the object must be initialised by the
+// constexpr constructors of the box and of its aligned_storage).
+constinit frg::manual_box<wit::Elem> wit_global_box; // WITNESS holder: a namespace-scope manual_box is constant-initialised (no dynamic initialiser can reset an engaged box)
